@@ -362,7 +362,21 @@ class Ctx:
             if len(chunks) != len(thms):
                 self.broken.append("coq: Print Assumptions gave %d answers for %d theorems in %s" % (len(chunks), len(thms), pf))
         self.proof_files = files
+        if self.tier == "thorough" and not self.coq_failed:
+            self.coqchk(parts)
         return total, done
+
+    def coqchk(self, parts):
+        """Independent re-check of the compiled property files and everything they depend on
+        (thorough tier): coqchk must accept them and report no axioms."""
+        mods = ["V." + pf[:-2].replace("/", ".") for pf in parts]
+        t = time.time()
+        rc, out = sh(["coqchk", "-silent", "-o", "-R", ".", "V"] + mods, cwd=COQ, timeout=7200)
+        ax = re.search(r"\* Axioms:\s*(.*?)\n\s*\n", out, re.S)
+        axioms = " ".join(ax.group(1).split()) if ax else "?"
+        self.trusted.append("coqchk -o on %s: exit %d, axioms: %s (%.0fs)" % (" ".join(mods), rc, axioms, time.time() - t))
+        if rc != 0 or axioms != "<none>":
+            self.broken.append("coqchk: exit %d, axioms %s" % (rc, axioms))
 
     def coq_run(self, name, text, timeout=900):
         """Compile a generated .v file in the work directory against the built project."""
